@@ -12,7 +12,7 @@ esac
 cd $wt || exit 2
 git checkout -q -- . ; git clean -fdq -e target
 res="$id/$mk"
-if ! git apply $patch 2>/dev/null; then echo "$res APPLY-FAIL"; exit 0; fi
+if ! git apply $patch 2>/dev/null; then if ! git apply --3way $patch 2>/dev/null; then echo "$res APPLY-FAIL"; git checkout -q -- .; exit 0; fi; git reset -q; fi
 if ! cargo build --offline --workspace >/dev/null 2>&1; then echo "$res BUILD-FAIL"; git checkout -q -- .; exit 0; fi
 suite=$(cargo test --workspace --no-fail-fast --offline 2>&1 | grep -E "^test result" | awk '{p+=$4; f+=$6} END {print p"/"f}')
 cp $dir/demo.rs ts-rs/tests/seeded_demo.rs
